@@ -862,3 +862,12 @@ func ConvTermKey(typ string, x *Term) string {
 
 // ContentAt returns the term of the value held by local al just before instruction at.
 func (fi *FuncInfo) ContentAt(al *ssa.Alloc, at ssa.Instruction) *Term { return fi.contentTerm(al, at) }
+
+
+// SliceTerm builds x[lo:hi] (hi == nil means the end of x), normalised.
+func SliceTerm(x, lo, hi *Term) *Term {
+	if hi == nil {
+		hi = mk(KConst, "end", nil, nil)
+	}
+	return normalize(mk(KSlice, "", nil, nil, x, lo, hi))
+}
